@@ -131,10 +131,9 @@ func (p c12Probe) ServeHTTP(w http.ResponseWriter, r *http.Request) (int, error)
 		if cl {
 			w.Header().Set("Content-Length", strconv.Itoa(len(b)))
 		}
-		if strings.HasPrefix(mode, "i") {
-			// 103 Early Hints first: informational, the response header proper follows
-			w.Header().Set("Link", "</c12.css>; rel=preload")
-			w.WriteHeader(http.StatusEarlyHints)
+		for strings.HasPrefix(mode, "i") {
+			// informational headers first: the response header proper follows
+			c12Info(w, len(mode))
 			mode = mode[1:]
 		}
 		if st != "-" {
@@ -182,6 +181,12 @@ func (p c12Probe) ServeHTTP(w http.ResponseWriter, r *http.Request) (int, error)
 		if f[2] == "1" {
 			err = errors.New("probe failed")
 		}
+		if len(f) == 4 { // ret:<s>:<e>:<n> - n informational headers, then return without a response
+			n, _ := strconv.Atoi(f[3])
+			for k := 0; k < n; k++ {
+				c12Info(w, k)
+			}
+		}
 		return s, err
 	case "write":
 		if len(f) != 7 {
@@ -193,12 +198,28 @@ func (p c12Probe) ServeHTTP(w http.ResponseWriter, r *http.Request) (int, error)
 		}
 		return 0, err
 	case "panic":
+		if len(f) == 2 {
+			n, _ := strconv.Atoi(f[1])
+			for k := 0; k < n; k++ {
+				c12Info(w, k)
+			}
+		}
 		panic("probe panic before writing")
 	case "panicafter":
 		wrote(f[1], f[2], false, "w")
 		panic("probe panic after writing")
 	}
 	return 500, errors.New("bad probe script")
+}
+
+// c12Info sends an informational header: 103 Early Hints or 102 Processing, alternating.
+func c12Info(w http.ResponseWriter, k int) {
+	if k%2 == 0 {
+		w.Header().Set("Link", "</c12.css>; rel=preload")
+		w.WriteHeader(http.StatusEarlyHints)
+	} else {
+		w.WriteHeader(http.StatusProcessing)
+	}
 }
 
 var (
@@ -592,7 +613,9 @@ func c12Inners() []string {
 	out = append(out, c12Write("204", "plain", 0, 1, "w"), c12Write("304", "plain", 0, 0, "w"), c12Write("204", "tok", 0, 0, "c"),
 		c12Write("304", "tok", 0, 1, "w"), c12Write("204", "plain", 1, 0, "w"),
 		c12Write("200", "plain", 0, 1, "iw"), c12Write("404", "tok", 0, 0, "iw"), c12Write("-", "plain", 0, 0, "ic"),
-		c12Write("200", "texec", 0, 1, "iw"), c12Write("201", "plain", 1, 0, "iw"))
+		c12Write("200", "texec", 0, 1, "iw"), c12Write("201", "plain", 1, 0, "iw"), c12Write("404", "plain", 0, 1, "iiw"),
+		// informational headers, then no response of the handler's own: an error status, nothing, a panic
+		"ret:404:0:1", "ret:500:1:2", "ret:403:0:3", "ret:0:0:1", "ret:200:0:2", "panic:1", "panic:2")
 	// bodies that are templates (render fine / do not parse / fail while executing) or plain, with
 	// and without an explicit Content-Length, written with Write, io.Copy, io.WriteString, Write+Flush
 	for _, k := range []string{"plain", "tok", "tparse", "texec"} {
@@ -686,7 +709,7 @@ func c12Gen(g *hx.Gen) {
 		var in string
 		switch g.Rng.Intn(5) {
 		case 0:
-			in = fmt.Sprintf("ret:%d:%d", hx.Pick(g.Rng, []int{400, 401, 403, 404, 405, 410, 413, 429, 500, 501, 502, 503, 504}), g.Rng.Intn(2))
+			in = fmt.Sprintf("ret:%d:%d:%d", hx.Pick(g.Rng, []int{400, 401, 403, 404, 405, 410, 413, 429, 500, 501, 502, 503, 504}), g.Rng.Intn(2), g.Rng.Intn(3))
 		case 1:
 			in = fmt.Sprintf("ret:%d:0", hx.Pick(g.Rng, []int{0, 200, 204, 301, 302, 304}))
 		case 2:
@@ -698,6 +721,131 @@ func c12Gen(g *hx.Gen) {
 		}
 		g.Case(strings.Join(stack, ","), hx.Pick(g.Rng, []string{"html", "bin", "html", "bin", "html-head", "bin-head"}), strconv.Itoa(g.Rng.Intn(2)), in)
 	}
+}
+
+// ---- c12.chain: wrapper stacks assembled through the httpserver API ----
+//
+// c12.chain  stack  path  ae  inner       (same case and answer format as c12.serve)
+// The chain is built from the directives' own setup functions (casket.DirectiveAction on
+// Casketfile text) and handed to httpserver.NewServer in directive order - no Casketfile is
+// loaded, so InspectServerBlocks does not add `errors` to a site that has `gzip`: gzip's own
+// fallback for an unhandled error status is reachable here.  (log and errors need their log files
+// opened by the loader's startup callbacks and are not used in this stream.)
+
+var c12ChainOrder = []string{"limits", "request_id", "rewrite", "gzip", "header", "status", "mime", "internal", "templates"}
+
+var c12ChainText = map[string]string{
+	"limits": "limits 1MB\n", "request_id": "request_id\n", "rewrite": "rewrite /c12-old /c12-new.html\n", "gzip": "gzip\n",
+	"header": "header / {\n X-C12 on\n -X-Inner\n}\n", "status": "status 403 /c12-forbidden\n", "mime": "mime .c12 text/c12\n",
+	"internal": "internal /c12-internal\n", "templates": "templates\n",
+}
+
+var c12Chains = map[string]*httpserver.Server{}
+
+func c12ChainServer(stackField string) (*httpserver.Server, error) {
+	key := c12Key(stackField)
+	if srv := c12Chains[key]; srv != nil {
+		return srv, nil
+	}
+	have := map[string]bool{}
+	if stackField != "" {
+		for _, d := range strings.Split(stackField, ",") {
+			if _, ok := c12ChainText[d]; !ok {
+				return nil, errors.New("directive not available in c12.chain: " + d)
+			}
+			have[d] = true
+		}
+	}
+	base := casket.NewTestController("http", "")
+	base.Key = "c12chain.test"
+	cfg := httpserver.GetConfig(base)
+	cfg.Root = c12Dir
+	cfg.Addr = httpserver.Address{Original: "127.0.0.1", Host: "127.0.0.1", Port: "0"}
+	for _, d := range c12ChainOrder {
+		if !have[d] {
+			continue
+		}
+		c := casket.NewTestController("http", c12ChainText[d])
+		act, err := casket.DirectiveAction("http", d)
+		if err != nil {
+			return nil, err
+		}
+		if err := act(c); err != nil {
+			return nil, err
+		}
+		for _, m := range httpserver.GetConfig(c).Middleware() {
+			cfg.AddMiddleware(m)
+		}
+	}
+	cfg.AddMiddleware(func(next httpserver.Handler) httpserver.Handler { return c12Probe{Next: next} })
+	srv, err := httpserver.NewServer("127.0.0.1:0", []*httpserver.SiteConfig{cfg})
+	if err != nil {
+		return nil, err
+	}
+	c12Chains[key] = srv
+	c12Base["chain:"+key] = c12FollowUps(srv)
+	return srv, nil
+}
+
+func c12ChainEval(f []string) (string, []string) {
+	if len(f) != 4 {
+		return "bad-case", nil
+	}
+	srv, err := c12ChainServer(f[0])
+	if err != nil {
+		return "setup-error:" + err.Error(), nil
+	}
+	path, inner, ok := c12PathAndBody(f[1], f[3])
+	if !ok {
+		return "bad-case", nil
+	}
+	method := "GET"
+	if strings.HasSuffix(f[1], "-head") {
+		method = "HEAD"
+	}
+	out := c12ObserveM(srv, method, path, f[3], f[2] == "1", inner)
+	follow := "ok"
+	if got := c12FollowUps(srv); got != c12Base["chain:"+c12Key(f[0])] || !strings.HasPrefix(got, "1 200 = r:inner:"+hx.HS(c12Follow)) {
+		follow = "bad"
+	}
+	return out + " " + follow, []string{strings.Split(f[3], ":")[0], "chain"}
+}
+
+func c12ChainGen(g *hx.Gen) {
+	inners := c12Inners()
+	sem := []string{"gzip", "header", "templates"}
+	for m := 0; m < 1<<len(sem); m++ {
+		var stack []string
+		for i, d := range sem {
+			if m>>i&1 == 1 {
+				stack = append(stack, d)
+			}
+		}
+		for _, extra := range [][]string{nil, {"limits", "request_id", "rewrite", "status", "mime", "internal"}} {
+			st := append(append([]string{}, stack...), extra...)
+			sort.Strings(st)
+			for _, in := range inners {
+				for _, p := range []string{"html", "bin", "html-head"} {
+					if p == "html-head" && (strings.HasPrefix(in, "panicafter") || extra != nil) {
+						continue
+					}
+					for _, ae := range []string{"1", "0"} {
+						if ae == "0" && extra != nil {
+							continue
+						}
+						g.Case(strings.Join(st, ","), p, ae, in)
+					}
+				}
+			}
+		}
+	}
+}
+
+func c12ChainTeardown() {
+	for k := range c12Chains {
+		delete(c12Chains, k)
+	}
+	c12Teardown()
 }
 
 // ---- c12.live: the same sites over real sockets ----
@@ -810,7 +958,7 @@ func c12LiveGen(g *hx.Gen) {
 			c12Write("-", k, 0, 1, "fw"), c12Write("200", k, 0, 0, "nw"),
 			"file:"+k+":"+hx.HS(c12Bodies[k]))
 	}
-	inners = append(inners, c12Write("204", "plain", 0, 1, "w"), c12Write("304", "tok", 0, 0, "w"),
+	inners = append(inners, "ret:404:0:1", "ret:500:1:2", "ret:0:0:1", "panic:1", c12Write("204", "plain", 0, 1, "w"), c12Write("304", "tok", 0, 0, "w"),
 		c12Write("200", "plain", 0, 1, "iw"), c12Write("404", "tok", 0, 0, "iw"), c12Write("200", "texec", 0, 1, "iw"))
 	for m := 0; m < 1<<len(c12Semantic); m++ {
 		for _, em := range c12ErrModes {
@@ -845,6 +993,7 @@ func c12LiveGen(g *hx.Gen) {
 }
 
 func init() {
+	hx.Register(&hx.Stream{ID: "C12", Name: "c12.chain", Gen: c12ChainGen, Eval: c12ChainEval, Serial: true, Setup: c12Setup, Teardown: c12ChainTeardown})
 	hx.Register(&hx.Stream{ID: "C12", Name: "c12.live", Gen: c12LiveGen, Eval: c12LiveEval, Serial: true, Setup: c12Setup, Teardown: c12Teardown})
 	hx.Register(&hx.Stream{ID: "C12", Name: "c12.serve", Gen: c12Gen, Eval: c12Eval, Serial: true, Setup: c12Setup, Teardown: c12Teardown})
 }
